@@ -457,11 +457,13 @@ for _p in ('C01', 'C02'):
                             'integer sequences, no aliasing between distinct bytearray values)')
     REG.note(_p, 'assumptions', 'sequence numbers < 2^64-1 (tlslite-ng has no rekey-on-wrap: caller obligation)')
     REG.note(_p, 'assumptions', 'fixedIVBlock has cipher block length (set by calcPendingStates)')
-REG.note('C01', 'not_built', 'TLSRecordLayer._sendMsg fragmentation / 1-n-1 split; readAsync FIFO; calcPendingStates key mirror; '
-                             'RecordSocket header round trip and size caps; sendRecord TLS1.3 inner-plaintext framing; composition lemma')
+REG.note('C01', 'not_built', 'sendRecord TLS1.3 inner-plaintext framing and padding callback; the composition lemma over a whole connection '
+                             '(two live endpoints); (_sendMsg fragmentation, readAsync buffer, calcPendingStates mirror, RecordSocket round trip '
+                             'and the size caps are under contract in contracts/sendmsg.py, m2_posthandshake.py, transport.py, m2_server.py)')
 REG.note('C01', 'assumptions', 'that a completed handshake leaves both ends with equal keys and sequence number 0 is C03/C04, not shown here')
-REG.note('C02', 'not_built', 'AESGCM/AESCCM/CHACHA20_POLY1305.open tag comparison (see C09 contracts); TLS1.3 outer header exceptions in recvRecord; '
-                             'early-data window; _getNextRecordFromSocket error->alert mapping; epoch separation frame scan')
+REG.note('C02', 'not_built', 'TLS1.3 outer header exceptions in recvRecord; the byte budget of the early-data window (that it is closed after the first '
+                             'delivered record is an obligation of recvRecord/delivery); epoch separation frame scan; (AEAD open() tag comparison: contracts/ciphers.py, partly thorough tier; '
+                             '_getNextRecordFromSocket error->alert mapping: m2_getmsg.py)')
 REG.note('C02', 'assumptions', 'step from "tag equals MAC/AEAD tag over (receiver counter, type, version, length, body) under the read key" to '
                                '"the peer sent exactly this record next" is MAC/AEAD unforgeability: assumed, not proved')
 
